@@ -3,6 +3,7 @@ package main
 import (
 	"fmt"
 	"sort"
+	"strconv"
 	"strings"
 	"time"
 
@@ -41,11 +42,55 @@ func newSynth(deepest uint, ox, oy float64) *gridSpec {
 }
 
 func newReal(name string, maxID int, round bool) *gridSpec {
-	t, err := tms20.LoadEmbeddedTileMatrixSet(name)
+	t, err := loadSet(name)
 	if err != nil {
 		panic(err)
 	}
 	return &gridSpec{name: name, tms: t, levelDiff: 12, round: round, maxID: maxID, grids: map[int]grid{}}
+}
+
+// setVariants: what a user may build from a built-in tile matrix set and hand to the library (name = "<built-in>+<variant>")
+var setVariants = []string{"matrices-x2", "tiles-512", "tiles-128", "from-1"}
+
+// loadSet: a built-in tile matrix set, or a variant of one: every matrix of twice as many tiles each way (a first matrix of 2 x 2 tiles),
+// tiles of 512 or 128 pixels (the cell sizes kept), the first matrix dropped and the others renumbered from 0
+func loadSet(name string) (tms20.TileMatrixSet, error) {
+	base, variant, _ := strings.Cut(name, "+")
+	t, err := tms20.LoadEmbeddedTileMatrixSet(base)
+	if err != nil || variant == "" {
+		return t, err
+	}
+	c := cloneTMS(t)
+	c.ID = name
+	switch variant {
+	case "matrices-x2":
+		for id, tm := range c.TileMatrices {
+			tm.MatrixWidth, tm.MatrixHeight = 2*tm.MatrixWidth, 2*tm.MatrixHeight
+			c.TileMatrices[id] = tm
+		}
+	case "tiles-512", "tiles-128":
+		for id, tm := range c.TileMatrices {
+			tm.TileWidth, tm.TileHeight = 512, 512
+			if variant == "tiles-128" {
+				tm.TileWidth, tm.TileHeight = 128, 128
+			}
+			c.TileMatrices[id] = tm
+		}
+	case "from-1":
+		c.TileMatrices = map[tms20.TMID]tms20.TileMatrix{}
+		for id, tm := range t.TileMatrices {
+			if id == 0 {
+				continue
+			}
+			o := *tm.PointOfOrigin
+			tm.PointOfOrigin = &o
+			tm.ID = strconv.Itoa(id - 1)
+			c.TileMatrices[id-1] = tm
+		}
+	default:
+		return t, fmt.Errorf("unknown variant %q", variant)
+	}
+	return c, nil
 }
 
 type snapCase struct {
@@ -150,6 +195,8 @@ func panicClass(msg string) string {
 	return "other: " + msg
 }
 
+var idsBuf = make([]int, 0, 64)
+
 const hangLimit = 20 * time.Second
 
 // runImpl calls the real SnapPolygon under recover and a watchdog
@@ -161,6 +208,9 @@ func (c *snapCase) runImpl() *snapResult {
 	ch := make(chan out, 1)
 	start := time.Now()
 	mark(c.op())
+	// a caller may keep one slice of ids and overwrite it between calls: the result must depend on what is in it now
+	idsBuf = append(idsBuf[:0], c.tmids...)
+	ids := idsBuf
 	go func() {
 		var o out
 		defer func() {
@@ -169,7 +219,6 @@ func (c *snapCase) runImpl() *snapResult {
 			}
 			ch <- o
 		}()
-		ids := append([]int(nil), c.tmids...)
 		o.res = snap.SnapPolygon(c.poly, c.gs.tms, ids, c.cfg)
 	}()
 	var o out
@@ -177,6 +226,7 @@ func (c *snapCase) runImpl() *snapResult {
 	case o = <-ch:
 		unmark()
 	case <-time.After(hangLimit):
+		idsBuf = make([]int, 0, 64) // the hung call still holds the old one
 		return &snapResult{hang: true, elapsed: time.Since(start)}
 	}
 	sr := &snapResult{levels: map[uint][]polygonI{}, elapsed: time.Since(start)}
